@@ -8396,7 +8396,8 @@ func NewLsTLVSrCapabilities(l *LsSrCapabilities) *LsTLVSrCapabilities {
 		flags = flags | 1<<6
 	}
 	ranges := []LsSrLabelRange{}
-	var length uint16
+	// Flags (1) + Reserved (1), then per range: Range Size (3) + SID/Label TLV (4 + 4)
+	length := uint16(2)
 	for _, r := range l.Ranges {
 		ranges = append(ranges, LsSrLabelRange{
 			Range: r.End - r.Begin,
@@ -8408,7 +8409,7 @@ func NewLsTLVSrCapabilities(l *LsSrCapabilities) *LsTLVSrCapabilities {
 				SID: r.Begin,
 			},
 		})
-		length += 4
+		length += 11
 	}
 	return &LsTLVSrCapabilities{
 		LsTLV: LsTLV{
@@ -8555,7 +8556,8 @@ type LsSrLocalBlock struct {
 func NewLsTLVSrLocalBlock(l *LsSrLocalBlock) *LsTLVSrLocalBlock {
 	var flags uint8 //
 	ranges := []LsSrLabelRange{}
-	var length uint16
+	// Flags (1) + Reserved (1), then per range: Range Size (3) + SID/Label TLV (4 + 4)
+	length := uint16(2)
 	for _, r := range l.Ranges {
 		ranges = append(ranges, LsSrLabelRange{
 			Range: r.End - r.Begin,
@@ -8567,7 +8569,7 @@ func NewLsTLVSrLocalBlock(l *LsSrLocalBlock) *LsTLVSrLocalBlock {
 				SID: r.Begin,
 			},
 		})
-		length += 4
+		length += 11
 	}
 	return &LsTLVSrLocalBlock{
 		LsTLV: LsTLV{
